@@ -366,3 +366,82 @@ def construct_path(stack: typing.Sequence[G]) -> str:
                 s = s[:67] + "..."
             parts.append(("if " if g.pol else "if-not ") + s)
     return " > ".join(parts) if parts else "<top>"
+
+
+# ---------------------------------------------------------------------------
+# interprocedural guard oracle over the templates of one language
+# ---------------------------------------------------------------------------
+class GuardOracle:
+    """Decides whether a template location is reachable only under a guard satisfying `pred(facts)`, where facts is
+    the list of (expression string, polarity) implied by the lexical guard stack.  Follows macro call sites (same
+    template and imported names) and template inclusion sites (include / import / from-import / extends)."""
+
+    def __init__(self, ts: "TemplateSet", lang: str, kind: str = "templates"):
+        self.ts = ts
+        self.N = ts.nodes
+        self.tmpls = [t for t in ts.templates if t.lang == lang and t.kind == kind]
+        self.by_name = {t.name: t for t in self.tmpls}
+        N = self.N
+        # per template: imported macro names -> (source template name, macro name), module aliases
+        self.imports: typing.Dict[str, typing.Dict[str, typing.Tuple[str, str]]] = {}
+        self.mod_alias: typing.Dict[str, typing.Dict[str, str]] = {}
+        # sites where a template is pulled in: target template name -> [(host template, stack)]
+        self.pull_sites: typing.Dict[str, typing.List[typing.Tuple[Tmpl, typing.Tuple[G, ...]]]] = {}
+        # macro call sites: (template name, macro name) -> [(host template, stack)]
+        self.call_sites: typing.Dict[typing.Tuple[str, str], typing.List[typing.Tuple[Tmpl, typing.Tuple[G, ...]]]] = {}
+        for t in self.tmpls:
+            imp: typing.Dict[str, typing.Tuple[str, str]] = {}
+            ali: typing.Dict[str, str] = {}
+            for node, stack in walk(t.ast):
+                if isinstance(node, N.FromImport) and isinstance(node.template, N.Const):
+                    for nm in node.names:
+                        if isinstance(nm, tuple):
+                            src, alias = nm
+                        else:
+                            src = alias = nm
+                        imp[alias] = (node.template.value, src)
+                    self.pull_sites.setdefault(node.template.value, []).append((t, stack))
+                elif isinstance(node, N.Import) and isinstance(node.template, N.Const):
+                    ali[node.target] = node.template.value
+                    self.pull_sites.setdefault(node.template.value, []).append((t, stack))
+                elif isinstance(node, (N.Include, N.Extends)) and isinstance(node.template, N.Const):
+                    self.pull_sites.setdefault(node.template.value, []).append((t, stack))
+            self.imports[t.name] = imp
+            self.mod_alias[t.name] = ali
+        for t in self.tmpls:
+            local_macros = set(ts.macros(t))
+            for node, stack in walk(t.ast):
+                if not isinstance(node, N.Call):
+                    continue
+                if isinstance(node.node, N.Name):
+                    nm = node.node.name
+                    if nm in self.imports[t.name]:
+                        self.call_sites.setdefault(self.imports[t.name][nm], []).append((t, stack))
+                    elif nm in local_macros:
+                        self.call_sites.setdefault((t.name, nm), []).append((t, stack))
+                elif isinstance(node.node, N.Getattr) and isinstance(node.node.node, N.Name) and node.node.node.name in self.mod_alias[t.name]:
+                    self.call_sites.setdefault((self.mod_alias[t.name][node.node.node.name], node.node.attr), []).append((t, stack))
+
+    def guarded(self, t: Tmpl, stack: typing.Sequence[G], pred, _seen=None) -> bool:
+        _seen = _seen if _seen is not None else set()
+        if pred(facts(stack)):
+            return True
+        m = enclosing_macro(stack)
+        if m is not None:
+            key = ("m", t.name, m.name)
+            if key in _seen:
+                return True
+            _seen.add(key)
+            sites = self.call_sites.get((t.name, m.name), [])
+            if not sites:
+                return False  # never called from the analysed set: cannot justify
+            # the guards outside the macro in the defining template do not apply at call time
+            return all(self.guarded(ht, hs, pred, _seen) for ht, hs in sites)
+        key = ("t", t.name)
+        if key in _seen:
+            return True
+        _seen.add(key)
+        sites = self.pull_sites.get(t.name, [])
+        if not sites:
+            return False  # a root template, rendered directly
+        return all(self.guarded(ht, hs, pred, _seen) for ht, hs in sites)
